@@ -140,14 +140,13 @@ class Imaginizer(EndomorphicOperator):
 
     def apply(self, x, mode):
         self._check_input(x, mode)
-        if mode == self.TIMES:
-            from ..utilities import iscomplextype
-            if not iscomplextype(x.dtype):
-                raise ValueError
-            return x.imag
         from ..utilities import iscomplextype
+        if mode == self.TIMES:
+            if not iscomplextype(x.dtype):
+                return 0.*x
+            return x.imag
         if iscomplextype(x.dtype):
-            raise ValueError
+            return 1j*x.real
         return 1j*x
 
 
